@@ -149,26 +149,20 @@ func (c *Ctx) ruleConvKind(rule string) {
 					if cc, ok := cond.V.(*ssa.Call); ok && reflectValueMethod(cc) == "CanUint" && c.reflPath(cc.Call.Args[0], 0) == path {
 						return !cond.True
 					}
-					bo, ok := cond.V.(*ssa.BinOp)
+					x, op, k, ok := core.CmpConst(cond)
 					if !ok {
 						return false
 					}
-					uc, ok := bo.X.(*ssa.Call)
+					uc, ok := x.(*ssa.Call)
 					if !ok || reflectValueMethod(uc) != "Uint" || c.reflPath(uc.Call.Args[0], 0) != path {
 						return false
 					}
-					cst, ok := bo.Y.(*ssa.Const)
-					if !ok || cst.Value == nil || constant.Compare(cst.Value, token.LSS, constant.MakeInt64(1<<62)) {
-						return false
-					}
-					if constant.Compare(cst.Value, token.GTR, constant.MakeUint64(1<<63-1)) {
-						return false
-					}
-					switch bo.Op {
-					case token.GTR:
-						return !cond.True
+					// what holds is Uint() <= k with k <= MaxInt64, or Uint() < k with k <= MaxInt64 + 1
+					switch op {
 					case token.LEQ:
-						return cond.True
+						return !constant.Compare(k, token.GTR, constant.MakeUint64(1<<63-1))
+					case token.LSS:
+						return !constant.Compare(k, token.GTR, constant.MakeUint64(1<<63))
 					}
 					return false
 				}
